@@ -86,7 +86,18 @@ func (n NodeSet) String() string {
 		return ""
 	}
 
-	return GetCursorString(n[0])
+	// The string-value of a node-set is that of its first node in document
+	// order, which is not n[0] when the set is held in reverse document order
+	// (the result of a reverse axis, or a caller-supplied variable).
+	first := n[0]
+
+	for _, i := range n[1:] {
+		if i.Pos() < first.Pos() {
+			first = i
+		}
+	}
+
+	return GetCursorString(first)
 }
 
 func (n NodeSet) Number() float64 {
